@@ -31,6 +31,7 @@ type SpecEnv struct {
 	// pre is the state at loop entry (for loop invariants), optional
 	pre   *State
 	depth int
+	inAssume bool
 }
 
 func (e *SpecEnv) with(vars map[string]Val) *SpecEnv {
@@ -192,6 +193,10 @@ func (e *SpecEnv) eval(x ast.Expr) Val {
 		if v, ok := e.vars[n.Name]; ok {
 			return v
 		}
+		if gv := e.cx.eng.ghostVar(n.Name); gv != nil {
+			loc := b.Glob(1000000 + gv.id)
+			return Val{t: e.cx.load(e.cur, loc, gv.typ), typ: gv.typ, loc: loc}
+		}
 		if obj := e.pkg.Scope().Lookup(n.Name); obj != nil {
 			switch o := obj.(type) {
 			case *types.Const:
@@ -294,12 +299,26 @@ func (e *SpecEnv) selectField(base Val, name string, x ast.Expr) Val {
 	if t == nil {
 		specFail("untyped base in %s", exprString(x))
 	}
+	if ov, ok := overlayOf(t); ok {
+		nb := base
+		nb.typ = ov
+		if base.loc != nil {
+			nb.loc = e.b().Elem(base.loc, e.b().BV(0, 64))
+		}
+		return e.selectField(nb, name, x)
+	}
+	if pt, ok := t.Underlying().(*types.Pointer); ok {
+		if ov, ok := overlayOf(pt.Elem()); ok {
+			return e.selectField(Val{t: e.b().Elem(base.t, e.b().BV(0, 64)), typ: types.NewPointer(ov)}, name, x)
+		}
+	}
 	// pointer to struct: load through heap
 	if pt, ok := t.Underlying().(*types.Pointer); ok {
 		if _, ok := pt.Elem().Underlying().(*types.Struct); ok {
 			si := w.structInfo(pt.Elem())
 			if f, _, ok := si.field(name); ok {
 				loc := e.b().Fld(base.t, f.FID)
+				e.fieldAssumption(f.FID, base.t)
 				return Val{t: e.cx.load(e.cur, loc, f.Type), typ: f.Type, loc: loc}
 			}
 			if f, ok := si.ghostField(name); ok {
@@ -324,6 +343,7 @@ func (e *SpecEnv) selectField(base Val, name string, x ast.Expr) Val {
 		if f, i, ok := si.field(name); ok {
 			if base.loc != nil {
 				loc := e.b().Fld(base.loc, f.FID)
+				e.fieldAssumption(f.FID, base.loc)
 				return Val{t: e.cx.load(e.cur, loc, f.Type), typ: f.Type, loc: loc}
 			}
 			return Val{t: w.structField(si, base.t, i), typ: f.Type}
@@ -336,6 +356,42 @@ func (e *SpecEnv) selectField(base Val, name string, x ast.Expr) Val {
 	}
 	specFail("cannot select field %s of %s in %s", name, t, exprString(x))
 	return Val{}
+}
+
+// fieldAssumption adds the modelling bound declared for a field (assume-field)
+// for the value it has in the current state.
+func (e *SpecEnv) fieldAssumption(fid int, self *Term) {
+	w := e.w()
+	bg := w.fieldAssume[fid]
+	if bg == nil || e.inAssume {
+		return
+	}
+	env := &SpecEnv{cx: e.cx, pkg: bg.pkg, vars: map[string]Val{"self": {t: self, typ: types.NewPointer(bg.structT)}}, cur: e.cur, old: e.old, inAssume: true}
+	func() {
+		defer func() { recover() }()
+		g := env.evalBool(bg.g.Cond.Expr)
+		if !hasBoundVar(g, map[int]bool{}) {
+			e.cx.assume(g)
+			e.cx.trust("modelling bound assumed on every read of " + bg.g.TypeName + "." + bg.g.Field + ": " + bg.g.Cond.Text)
+		}
+	}()
+}
+
+// hasBoundVar: the term mentions a quantifier-bound variable (cannot be asserted at top level)
+func hasBoundVar(t *Term, seen map[int]bool) bool {
+	if seen[t.id] {
+		return false
+	}
+	seen[t.id] = true
+	if len(t.args) == 0 && strings.HasPrefix(t.op, "|") && strings.Contains(t.op, "?") {
+		return true
+	}
+	for _, a := range t.args {
+		if hasBoundVar(a, seen) {
+			return true
+		}
+	}
+	return false
 }
 
 func (e *SpecEnv) trySelect(base Val, name string, x ast.Expr) (v Val, ok bool) {
@@ -817,6 +873,15 @@ func (e *SpecEnv) evalCall(n *ast.CallExpr) Val {
 			specFail("preserved() needs an old state")
 		}
 		return Val{t: e.cx.preserved(e.cur, e.old), typ: boolT}
+	case "owner":
+		// owner(p, T): the struct of type T in which the object p points to is embedded (p == &o.f)
+		argn(2)
+		v := e.eval(n.Args[0])
+		t := e.lookupType(n.Args[1])
+		if t == nil || v.t == nil || v.t.sort != SLoc {
+			specFail("owner(ptr, T): bad arguments")
+		}
+		return Val{t: b.App("fbase", SLoc, v.t), typ: types.NewPointer(t)}
 	case "fresh":
 		argn(1)
 		v := e.eval(n.Args[0])
